@@ -1,10 +1,113 @@
 import VOPyVerif.Drv.Proto
-/-! Driver front end for property C01 (line protocol → executable model). -/
+import VOPyVerif.Model.Accuracy
+/-! Driver front end for property C01 (valid regions ⇒ ε-accurate Pareto set).
+
+* `box <l> <u> <x>`                      → `1` / `0` : `Accuracy.inBox` (truth inside a displayed box)
+* `ell <c> <Sigma> <alpha> <x>`          → `1` / `0` / `none` : `Accuracy.inEll`
+  (`(x−c)ᵀ Σ⁻¹ (x−c) ≤ α²`, exact; `none` = singular `Σ` or wrong shapes)
+* `final <W> <alpha> <eps> <M> <P>`      → `<a> <b> <wa> <wb>` : conclusions (a) `accA` and (b) `accB`
+  as `1`/`0`, followed by the first witnesses (`-` if none): a design outside `P` that nothing in
+  `P` dominates, and a pair `i,j` with `i ∈ P` and `m(i,j) > ε`
+* `finalT <W> <t> <M> <P>`               → `1` / `0` : `Accuracy.accT` (conclusion in the code's own
+  threshold units, `t = ε·α` per facet or `t = W·s` for an objective-space slack `s`)
+* `side <W> <s> <epsalpha>`              → `1` / `0` : `Accuracy.slackSideCondition`
+* `gap <W> <alpha> <mi> <mj>`            → the rational `m(i,j)` or `none`
+* `pround <n> <dom> <cov> <S> <P> <U>`   → `S';P';U'` (each sorted ascending) : one `Steps.pavebaRound`
+  with the oracles given as row-major `n×n` bit tables (`dom[i][j]` = "region i is dominated by region j",
+  `cov[i][j]` = "region i is covered by region j")
+* `around <eps> <C> <B> <S> <P>`         → `S';P'` : one `Steps.auerRound` with centres `C` (row i = design i)
+  and width rows `B`, every width looked up by design
+
+`M` is the matrix of true means (row `i` = design `i`).  Guards (else `bad-op`): `M` non-empty, all
+rows of `M` and `W` of one length, `α` positive with one entry per facet, every index of `P` `< K`.
+-/
 namespace VOPy.Drv.C01
-open VOPy VOPy.Proto
+open VOPy VOPy.Proto VOPy.Accuracy
+
+def shapesOk (W : Mat) (M : Mat) (P : List Nat) : Bool :=
+  match M with
+  | [] => false
+  | r :: _ =>
+    let m := r.length
+    M.all (fun x => decide (x.length = m)) && W.all (fun w => decide (w.length = m)) &&
+      P.all (fun i => decide (i < M.length))
+
+def muOf (M : Mat) : Nat → Vec := fun i => M.getD i []
+
+def fmtOptNat : Option Nat → String
+  | none => "-"
+  | some i => toString i
+
+def fmtOptPair : Option (Nat × Nat) → String
+  | none => "-"
+  | some (i, j) => toString i ++ "," ++ toString j
+
+def tableRel (n : Nat) (bits : List Bool) : Steps.Rel :=
+  fun i j => decide (i < n) && decide (j < n) && bits.getD (i * n + j) false
+
+def fmtSets (l : List (List Nat)) : String := ";".intercalate (l.map fun s => fmtNats (Steps.sortNat s))
 
 def handle (args : List String) : String :=
   match args with
+  | ["pround", n, d, c, s, p, u] =>
+    match n.toNat?, parseBools d, parseBools c, parseNats s, parseNats p, parseNats u with
+    | some n, some d, some c, some S, some P, some U =>
+      if d.length = n * n ∧ c.length = n * n ∧ (S ++ P ++ U).all (fun i => decide (i < n)) then
+        let r := Steps.pavebaRound (tableRel n d) (tableRel n c) S P U
+        fmtSets [r.1, r.2.1, r.2.2]
+      else bad
+    | _, _, _, _, _, _ => bad
+  | ["around", e, cm, bm, s, p] =>
+    match parseRat e, parseMat cm, parseMat bm, parseNats s, parseNats p with
+    | some e, some C, some B, some S, some P =>
+      if C.length = B.length ∧ (S ++ P).all (fun i => decide (i < C.length)) then
+        let r := Steps.auerRound e (fun i => C.getD i []) (fun i => B.getD i []) S P
+        fmtSets [r.1, r.2]
+      else bad
+    | _, _, _, _, _ => bad
+  | ["box", l, u, x] =>
+    match parseVec l, parseVec u, parseVec x with
+    | some l, some u, some x => fmtBool (inBox l u x)
+    | _, _, _ => bad
+  | ["ell", c, sg, a, x] =>
+    match parseVec c, parseMat sg, parseRat a, parseVec x with
+    | some c, some Sg, some a, some x =>
+      match inEll c Sg a x with
+      | some b => fmtBool b
+      | none => "none"
+    | _, _, _, _ => bad
+  | ["final", w, al, e, mm, p] =>
+    match parseMat w, parseVec al, parseRat e, parseMat mm, parseNats p with
+    | some W, some al, some e, some M, some P =>
+      if shapesOk W M P && decide (al.length = W.length) && al.all (fun a => decide (0 < a)) then
+        let K := M.length
+        let mu := muOf M
+        fmtBool (accA W K mu P) ++ " " ++ fmtBool (accB W al e K mu P) ++ " " ++
+          fmtOptNat (accAWitness W K mu P) ++ " " ++ fmtOptPair (accBWitness W al e K mu P)
+      else bad
+    | _, _, _, _, _ => bad
+  | ["finalT", w, t, mm, p] =>
+    match parseMat w, parseVec t, parseMat mm, parseNats p with
+    | some W, some t, some M, some P =>
+      if shapesOk W M P && decide (t.length = W.length) then
+        fmtBool (accT W t M.length (muOf M) P)
+      else bad
+    | _, _, _, _ => bad
+  | ["side", w, s, ea] =>
+    match parseMat w, parseVec s, parseVec ea with
+    | some W, some s, some ea =>
+      if W.all (fun r => decide (r.length = s.length)) then fmtBool (slackSideCondition W s ea) else bad
+    | _, _, _ => bad
+  | ["gap", w, al, a, b] =>
+    match parseMat w, parseVec al, parseVec a, parseVec b with
+    | some W, some al, some a, some b =>
+      if decide (al.length = W.length) && al.all (fun x => decide (0 < x)) &&
+          W.all (fun r => decide (r.length = a.length)) && decide (a.length = b.length) then
+        match mGap W al a b with
+        | some g => fmtRat g
+        | none => "none"
+      else bad
+    | _, _, _, _ => bad
   | _ => bad
 
 end VOPy.Drv.C01
